@@ -456,6 +456,10 @@ func HydrateLog(_type LogType, data []byte) (LogPayload, error) {
 	if err != nil {
 		return nil, err
 	}
+	if payload == nil {
+		// a JSON null resets the interface holding the typed pointer
+		return nil, fmt.Errorf("missing data for log of type '%s'", _type)
+	}
 
 	return reflect.ValueOf(payload).Elem().Interface().(LogPayload), nil
 }
